@@ -294,7 +294,43 @@ def h_tokens(params):
         fail("reachability twin")
 
 
-HARNESS = {"h_codec": h_codec, "h_csv": h_csv, "h_tokens": h_tokens}
+NUMBERS = [0, 1, -1, 3, 0.0, -0.0, 1.5, -2.5e-05, -7e-07, 1e-4, 9.999e-5, 5e-324, 2.2250738585072014e-308, 1e15, 1e16, 1e22, 123456789.125, 0.1,
+           1.7976931348623157e308, float("inf"), float("-inf"), 2**53, -(2**53), 15000000, 1e-10, 6.02e23]
+
+
+def h_numbers(params):
+    """Field values from a battery of special doubles / ints through the REAL codec and a real
+    CSV file (bounded fallback of the abstract-double argument; selector enumeration)."""
+    import math
+
+    from tinyflux import Point, TinyFlux
+
+    compact = params["compact"]
+    v = NUMBERS[choose("v", len(NUMBERS))]
+    w = NUMBERS[choose("w", len(NUMBERS))]
+    p = Point(time=T0, measurement="m", tags={"k": "v"}, fields={"a": v, "b": None, "c": w})
+    row = p._serialize_to_list(compact_key_prefixes=compact)
+    q = Point()._deserialize_from_list(list(row))
+    require(q == p, lambda: f"decode(encode(p)) != p: fields {p.fields!r} -> {list(row)!r} -> {q.fields!r}")
+    for k in ("a", "c"):
+        a, b = p.fields[k], q.fields[k]
+        require(math.copysign(1, a) == math.copysign(1, b), lambda: f"sign of zero lost: {a!r} -> {b!r}")
+    if params.get("file"):
+
+        def body(h):
+            h.db.insert(Point(time=T0, measurement="m", tags={"k": "v"}, fields={"a": v, "b": None, "c": w}), compact_key_prefixes=compact)
+            h.db.close()
+            db2 = TinyFlux(h.path)
+            got = db2.all()
+            db2.close()
+            require(len(got) == 1 and got[0] == p, lambda: f"through a CSV file fields {p.fields!r} came back as {show(got)}")
+
+        run_path({"storage": "csv", "auto_index": True, "stub": False}, body)
+    if params.get("twin"):
+        fail("reachability twin")
+
+
+HARNESS = {"h_codec": h_codec, "h_csv": h_csv, "h_tokens": h_tokens, "h_numbers": h_numbers}
 
 
 def classify(ob, res):
@@ -415,6 +451,9 @@ def obligations(tier):
     for slot in SLOTS:
         for compact in (False, True):
             obs.append({"id": f"tokens/{slot}/{'compact' if compact else 'default'}", "harness": "h_tokens", "params": {"slot": slot, "compact": compact}, "budget_s": 120})
+    for compact in (False, True):
+        for f in (False, True):
+            obs.append({"id": f"numbers/{'compact' if compact else 'default'}/{'file' if f else 'codec'}", "harness": "h_numbers", "params": {"compact": compact, "file": f}, "budget_s": 120})
     obs.append({"id": "twin/tokens", "harness": "h_tokens", "params": {"slot": "tag_key", "compact": True, "twin": True}, "budget_s": 60})
     obs.append({"id": "twin/codec", "harness": "h_codec", "params": {"n_tags": 1, "n_fields": 1, "compact": False, "kinds": ["float"], "twin": True}, "budget_s": 60})
     obs.append({"id": "twin/csv", "harness": "h_csv", "params": {"slot": "tag_value", "dialect": 0, "maxlen": 1, "twin": True}, "budget_s": 60})
